@@ -71,9 +71,15 @@ type c11Op struct {
 	Addr     string
 	Weight   int
 	Strategy string
+	// Body, if set, is the JSON body as it is sent (the other fields say what it means): bodies
+	// that leave keys out rather than sending them empty
+	Body string
 }
 
 func (o c11Op) String() string {
+	if o.Body != "" {
+		return o.Kind + " " + o.Body
+	}
 	switch o.Kind {
 	case "add":
 		return fmt.Sprintf("add(%s,%s,%d)", o.Name, o.Addr, o.Weight)
@@ -110,6 +116,9 @@ func (m *c11Model) apply(o c11Op) string {
 		m.Entries = append(m.Entries, c11Entry{o.Name, hostOf(o.Addr), w, true})
 		return "201"
 	case "remove":
+		if o.Name == "" {
+			return "400"
+		}
 		var keep []c11Entry
 		for _, e := range m.Entries {
 			if e.Name != o.Name {
@@ -205,15 +214,24 @@ func (y *c11Sys) do(o c11Op) string {
 	switch o.Kind {
 	case "add":
 		b, _ := json.Marshal(map[string]interface{}{"name": o.Name, "address": o.Addr, "weight": o.Weight})
+		if o.Body != "" {
+			b = []byte(o.Body)
+		}
 		code, _ := y.admin("POST", "/v1/backends/add", string(b))
 		y.k.AdoptAll()
 		return fmt.Sprint(code)
 	case "remove":
 		b, _ := json.Marshal(map[string]string{"name": o.Name})
+		if o.Body != "" {
+			b = []byte(o.Body)
+		}
 		code, _ := y.admin("POST", "/v1/backends/remove", string(b))
 		return fmt.Sprint(code)
 	case "set":
 		b, _ := json.Marshal(map[string]string{"strategy": o.Strategy})
+		if o.Body != "" {
+			b = []byte(o.Body)
+		}
 		code, _ := y.admin("POST", "/v1/strategy", string(b))
 		return fmt.Sprint(code)
 	case "eject":
@@ -266,6 +284,13 @@ var c11Ops = []c11Op{
 	// time passes: the windows of ejected backends run out while nothing looks at them (the next
 	// request or listing is the first to notice)
 	{Kind: "clock"},
+	// bodies that leave a key out instead of sending it empty: a missing address or name is a
+	// missing one (refused, nothing changes), a missing weight is the default, a missing
+	// strategy names none - whatever an earlier call said
+	{Kind: "add", Name: "g", Body: `{"name":"g"}`},
+	{Kind: "add", Name: "h", Addr: "http://h1.test:80", Body: `{"name":"h","address":"http://h1.test:80"}`},
+	{Kind: "remove", Body: `{}`},
+	{Kind: "set", Body: `{}`},
 }
 
 type c11Inst struct {
